@@ -70,6 +70,8 @@ def make_pool():
     P["D1l"] = P["D1"].tolist()
     P["D2l"] = P["D2"].tolist()
     P["D1f32"] = P["D1"].astype(np.float32)
+    P["D1u8"] = P["D1"].astype(np.uint8)
+    P["D2u8"] = P["D2"].astype(np.uint8)
     P["Dinf"] = np.array([[0, 4], [1, 3], [0, np.inf]], dtype=float)
     P["Dinf32"] = P["Dinf"].astype(np.float32)
     P["BP"] = np.array([[0.0, 2.0], [1.0, 3.0]])
@@ -90,6 +92,9 @@ def make_pool():
     P["G2df"] = (P["G2"] + P["G2"].T).toarray().astype(np.float64)
     P["G1di"] = P["G1"].toarray().astype(np.int64)
     P["G2l"] = P["G2"].toarray().tolist()
+    # collections the CALLER owns: lists of graphs / of diagrams kept between calls
+    P["GL"] = [P["G1"].toarray().astype(np.float64), (P["G2"] + P["G2"].T).toarray().astype(np.int64), P["G1"].copy()]
+    P["DL"] = [P["D1"].copy(), P["D2"].copy(), P["Dinf"].copy()]
     P["xs"] = np.linspace(-2.0, 2.0, 9)
     P["ys"] = np.linspace(-1.0, 3.0, 9)
     with warnings.catch_warnings():
@@ -109,6 +114,7 @@ def make_pool():
     P["wp"] = {"low": 0.0, "high": 1.0, "start": 0.0, "end": 5.0}
     P["D3"] = np.array([[0, 1], [1, 3], [2, 5], [0, 4]], dtype=float)     # persistences 1, 2, 3, 4: fractional ramp weights
     P["D3i"] = P["D3"].astype(int)
+    P["D3u8"] = P["D3"].astype(np.uint8)
     P["D3l"] = P["D3"].tolist()
     return P
 
@@ -138,8 +144,10 @@ def ep(name, forms=("",)):
     return deco
 
 
-F3 = ("", "i", "l")
-F2 = ("", "i")
+F3 = ("", "i", "l", "u8")        # float64 / int64 arrays, nested lists, uint8 arrays
+F2 = ("", "i", "u8")
+FS = ("", "i")                    # sliced_wasserstein projects with float32 direction vectors: a uint8 / float32 diagram is projected in single precision and
+                                  # differs from the float64 result in the 7th digit -- not counted as representation dependence
 
 
 @ep("bottleneck", F3)
@@ -158,12 +166,12 @@ def _(P, v):
     return d
 @ep("heat", F3)
 def _(P, v): return persim.heat(V(P, "D1", v), V(P, "D2", v), sigma=0.5)
-@ep("sliced M=10", F2)
-def _(P, v): return persim.sliced_wasserstein(V(P, "D1", v, F2), V(P, "D2", v, F2), M=10)
-@ep("sliced M=40", F2)
-def _(P, v): return persim.sliced_wasserstein(V(P, "D1", v, F2), V(P, "D2", v, F2), M=40)
-@ep("sliced M=3", F2)
-def _(P, v): return persim.sliced_wasserstein(V(P, "D1", v, F2), V(P, "D2", v, F2), M=3)
+@ep("sliced M=10", FS)
+def _(P, v): return persim.sliced_wasserstein(V(P, "D1", v, FS), V(P, "D2", v, FS), M=10)
+@ep("sliced M=40", FS)
+def _(P, v): return persim.sliced_wasserstein(V(P, "D1", v, FS), V(P, "D2", v, FS), M=40)
+@ep("sliced M=3", FS)
+def _(P, v): return persim.sliced_wasserstein(V(P, "D1", v, FS), V(P, "D2", v, FS), M=3)
 @ep("gromov_hausdorff seeded [0,0]")
 def _(P, v):
     np.random.seed(11)
@@ -190,6 +198,18 @@ def _(P, v):
     np.random.seed(13)
     lb, ub = persim.gromov_hausdorff([P["G1"], P["G2"], P["G1"]])
     return [lb, ub]
+@ep("gromov_hausdorff collection (the caller's own list)")
+def _(P, v):
+    np.random.seed(17)
+    lb, ub = persim.gromov_hausdorff(P["GL"])
+    return [lb, ub]
+@ep("collections the caller owns: entropy / death_vector / imager / landscaper / plot on one list of diagrams")
+def _(P, v):
+    a, b = ax2()
+    persim.plot_diagrams(P["DL"], ax=a)
+    out = [persistent_entropy(P["DL"]), list(death_vector(P["DL"])), list(P["pim"].transform(P["DL"][:2])),
+           PersistenceLandscaper(hom_deg=1, num_steps=5).fit_transform(P["DL"]), PersLandscapeExact(dgms=P["DL"], hom_deg=1), dig(a)]
+    plt.close("all"); return out
 @ep("persistent_entropy", F2)
 def _(P, v): return persistent_entropy(V(P, "D1", v, F2))
 @ep("persistent_entropy list keep_inf")
